@@ -153,10 +153,16 @@ class G:
         if c < 0.93:
             a, qa = self.bexp(d + 1)
             b, qb = self.bexp(d + 1)
+            if r.random() < 0.35:      # and() / or() take any number of arguments, evaluated left to right
+                x, qx = self.bexp(d + 1)
+                return (f"and({a}, {b}, {x})", f"(BAnd {qa} (BAnd {qb} {qx}))")
             return (f"and({a}, {b})", f"(BAnd {qa} {qb})")
         if c < 0.98:
             a, qa = self.bexp(d + 1)
             b, qb = self.bexp(d + 1)
+            if r.random() < 0.35:
+                x, qx = self.bexp(d + 1)
+                return (f"or({a}, {b}, {x})", f"(BOr {qa} (BOr {qb} {qx}))")
             return (f"or({a}, {b})", f"(BOr {qa} {qb})")
         return r.choice([("yes()", "BYes"), ("no()", "BNo")])
 
@@ -202,6 +208,10 @@ class G:
         self.next_var += 1
         h = r.choice([3, 4])
         k = r.random()
+        if k < 0.07 and not conditional:
+            # tally() with two arguments: one store per argument (skipped for a blank value) and one under the values joined by '|';
+            # the second argument is the optional column x (absent in short rows, sometimes empty)
+            return (f"tally(#{HDR[h]}, #x)", ("MULTI", [f"(CAgg (TallyS {h}%nat))", "(CAgg (TallyS 5%nat))", f"(CAgg (TallyC {h}%nat 5%nat))"]))
         if k < 0.18:
             return (f"tally(#{HDR[h]})", f"(Tally {h}%nat)")
         if k < 0.36:
@@ -238,7 +248,10 @@ class G:
         if self.aggs and c < 0.3:
             if r.random() < 0.7:
                 a, qa = self.agg(False)
-                out = (a, f"(CAct (Agg {qa}))" if qa.startswith("(AssignK") else f"(CAgg {qa})")
+                if isinstance(qa, tuple):
+                    out = (a, qa)          # one text component, several model components (all vote yes)
+                else:
+                    out = (a, f"(CAct (Agg {qa}))" if qa.startswith("(AssignK") else f"(CAgg {qa})")
             else:
                 b, qb = self.bexp(1)
                 a, qa = self.agg(True)
@@ -362,7 +375,10 @@ def impl(job):
 
 def case_lit(job, o):
     prog, rows, _ = job
-    comps = listlit(prog["comps"], lambda c: c[1])
+    flat = []
+    for c in prog["comps"]:
+        flat += c[1][1] if isinstance(c[1], tuple) else [c[1]]
+    comps = listlit(flat, lambda q: q)
     rl = listlit(rows, lambda r: listlit(r, ulit))
     if o["exc"]:
         return f"mkC01 sc0 {blit(prog['AND'])} {blit(prog['cw'])} {comps} {rl} true [] [] [] [] 0 0"
@@ -371,7 +387,7 @@ def case_lit(job, o):
     pv, st, dc = [], [], []
     for k, v in o["vars"].items():
         if isinstance(v, dict):
-            vid = 100 + HDR.index(k[len("tally_"):]) if k.startswith("tally_") else int(k[1:])
+            vid = 99 if k == "tally" else (100 + HDR.index(k[len("tally_"):]) if k.startswith("tally_") else int(k[1:]))
             dc.append(f"({vid}, {listlit(list(v.items()), lambda kv: '(' + ulit(str(kv[0])) + ', ' + val_lit(kv[1]) + ')')})")
         elif k.startswith("k"):
             st.append(f"({k[1:]}, {listlit(list(v), val_lit)})")
